@@ -94,6 +94,29 @@ def unordered_vectors(crate, f, returners=None):
             dl = place_local(c["dest"])
             if "std::vec::Vec<" in f.local_ty(dl) and not sort_blocks(f, dl):
                 tainted[dl] = c
+        # `partition` / `unzip` of an S1 iterator: two vectors in hash order, moved out of the returned pair
+        if c.get("fn") in ("std::iter::Iterator::partition", "std::iter::Iterator::unzip") and _is_s1(c.get("targs", [])):
+            dl = place_local(c["dest"])
+            for _b2, _si, pl, rv, _sp in f.assigns():
+                if rv[0] == "use" and isinstance(pl, int) and op_place(rv[1]) is not None and place_local(op_place(rv[1])) == dl \
+                        and place_projs(op_place(rv[1])) and "std::vec::Vec<" in f.local_ty(pl) and not sort_blocks(f, pl):
+                    tainted[pl] = c
+    # a vector extended with an unsorted one after its own sort is unsorted again
+    grew = True
+    while grew:
+        grew = False
+        for bb, c in f.calls():
+            res = c.get("res") or ""
+            if not (res.endswith("::extend") or res.endswith("::append") or res.endswith("::extend_from_slice")) or len(c["args"]) < 2:
+                continue
+            v = _root_local(f, c["args"][0])
+            src = next((x for x in (op_local(c["args"][1]), _root_local(f, c["args"][1]), _iter_source_local(f, c["args"][1]))
+                        if x in tainted), None)
+            if v is None or v in tainted or src is None or "std::vec::Vec<" not in f.local_ty(v):
+                continue
+            if not any(_reaches_block(f, bb, sb) for sb in sort_blocks(f, v)):
+                tainted[v] = tainted[src]
+                grew = True
     for bb, c in f.calls():
         via_tainted = None
         if c.get("fn") == "std::iter::Iterator::next" and c["span"][4].startswith("desugar:ForLoop") and not _is_s1(c.get("targs", [])) and tainted:
@@ -690,6 +713,17 @@ def r4f_no_prefix_adaptors(ctx):
             if meth not in ("take_while", "skip_while", "map_while", "binary_search", "binary_search_by", "binary_search_by_key", "partition_point"):
                 continue
             ta = " ".join(c.get("targs", []))
+            if "rustpython" in ta and meth in ("take_while", "skip_while", "map_while"):
+                # arguments / keywords / statements of the Python AST: a prefix adaptor stops at the first node of another shape
+                # (a name among string literals, a starred argument) and silently drops what follows it
+                n += 1
+                key = "R4f|%s|%s over AST nodes" % (f.root, meth)
+                if key in REVIEWED:
+                    r.review(key, REVIEWED[key])
+                else:
+                    r.violate(key, "%s uses `%s` over nodes of the Python AST at %s: everything after the first node that fails the "
+                                   "test is dropped" % (f.root.split("::")[-1], meth, crate.span_str(c["span"])))
+                continue
             if sel.DEF not in ta and sel.USAGE not in ta:
                 continue
             n += 1
@@ -798,4 +832,82 @@ def r4g_zip_sides_agree(ctx):
             else:
                 r.ok(sample={"zip in": f.id.split("::")[-1], "dropping steps per side": [len(a[0]), len(bside[0])]} if len(r.samples) < 4 else None)
     r.counts["zips"] = n
+    return r
+
+
+# ------------------------------------------------------------------------------------------------------------------ R4h
+HASH_ORDERED = r"collections::hash_(map|set)::|dashmap::iter::|dashmap::iter_set::"
+ORDER_PICKS = ("find", "find_map", "position", "rposition", "next", "next_back", "nth", "last", "take", "skip", "take_while",
+               "skip_while", "map_while", "step_by", "rev", "min_by_key", "max_by_key", "min_by", "max_by", "reduce", "try_fold")
+
+
+def r4h_no_pick_in_hash_order(ctx):
+    r = Result("R4h", "no order-dependent selection from the iteration of a HashMap / HashSet / DashMap (the iterator type names a "
+                      "hash container, through any adaptors): neither an adaptor (find / find_map / position / next / nth / last / "
+                      "take / skip / *_while / min_by_key / max_by_key ...) nor a `for` loop over it that is left early with a "
+                      "value. Which element comes first changes from run to run (per-process hash seed, shard layout), and a "
+                      "first match keeps ONE of several matches. Order-free consumers (any, all, count, sum, collect, for_each, "
+                      "filter, map; a loop that answers bool) are not picks; loops over index records are R4b's. Sites where any "
+                      "element is right are in the reviewed table")
+    from ..reviewed import settle
+    from .r1e import natural_loops, _skip_goto
+    crate = ctx.bin
+    n = 0
+    pending = []
+    seen_keys = set()
+    for f in crate.real_fns():
+        if "_serde::" in f.id or f.id.startswith("<"):
+            continue
+        # (i) adaptors
+        for bb, c in f.calls():
+            meth = (c.get("fn") or c.get("res") or "").rsplit("::", 1)[-1]
+            if meth not in ORDER_PICKS or not c["args"] or c["span"][4].startswith(("desugar:", "macro:")):
+                continue
+            a0 = op_local(c["args"][0])
+            ty = f.local_ty(a0) if a0 is not None else ""
+            if not re.search(HASH_ORDERED, " ".join(c.get("targs", [])[:1])) and not re.search(HASH_ORDERED, ty):
+                continue
+            n += 1
+            key = "R4h|%s|pick in hash order" % f.root
+            if key not in seen_keys:
+                seen_keys.add(key)
+                pending.append((key, "%s applies `%s` to a hash-ordered iteration at %s: the element picked depends on the hash order" % (
+                    f.root.split("::")[-1], meth, crate.span_str(c["span"]))))
+        # (ii) for loops left early with a value
+        if f.ret == "bool":
+            continue
+        for h, latches, body in natural_loops(f):
+            hb = _skip_goto(f, h)
+            ht = f.blocks[hb]["t"]
+            if ht[0] != "call" or not (ht[1].get("res") or "").endswith("::next") or not ht[1]["args"]:
+                continue
+            ta = " ".join(ht[1].get("targs", []))
+            ty = f.local_ty(op_local(ht[1]["args"][0]) or 0)
+            if not re.search(HASH_ORDERED, ta) and not re.search(HASH_ORDERED, ty):
+                continue
+            if sel.DEF in ta + ty or sel.USAGE in ta + ty:
+                continue      # first-match exits over index records: R4b
+            d = place_local(ht[1]["dest"])
+            early = []
+            for b in sorted(body):
+                t = f.blocks[b]["t"]
+                for s2 in f.succs(b):
+                    if s2 in body:
+                        continue
+                    if t[0] == "switch" and any(dd[0] == "assign" and dd[3][0] == "discr" and place_local(dd[3][1]) == d
+                                                for dd in f.whole_defs(op_local(t[1]) or -1)):
+                        continue      # the iterator's own end (and the unreachable arm of that match)
+                    if f.blocks[s2]["t"][0] in ("unreachable", "resume", "abort"):
+                        continue
+                    early.append(b)
+            if not early:
+                continue
+            n += 1
+            key = "R4h|%s|pick in hash order" % f.root
+            if key not in seen_keys:
+                seen_keys.add(key)
+                pending.append((key, "%s leaves its loop over a hash-ordered iteration (%s) early with a value: which element gets "
+                                     "there first depends on the hash order" % (f.root.split("::")[-1], crate.span_str(ht[1]["span"]))))
+    settle(r, pending)
+    r.counts["order_dependent_picks_over_hash_ordered_iterations"] = n  # no floor: an LRU eviction has no such pick
     return r
